@@ -49,6 +49,12 @@ ScriptTwin == << [op |-> "cif_create", cif |-> "c1"],
                  [op |-> "create_loop", cont |-> "h1", category |-> "k", names |-> <<"_x">>],
                  [op |-> "create_loop", cont |-> "h2", category |-> "k", names |-> <<"_x">>],
                  [op |-> "loop_add_packet", loop |-> "l2", packet |-> << <<"_x", "s1">> >>] >>
+\* a one-item loop WITHOUT a category (NULL) holding two packets, for "remove a packet, then add one"
+ScriptLoopN == << [op |-> "cif_create", cif |-> "c1"],
+                  [op |-> "create_block", cif |-> "c1", code |-> "a"],
+                  [op |-> "create_loop", cont |-> "h1", category |-> "NULL", names |-> <<"_x">>],
+                  [op |-> "loop_add_packet", loop |-> "l1", packet |-> << <<"_x", "s1">> >>],
+                  [op |-> "loop_add_packet", loop |-> "l1", packet |-> << <<"_x", "s2">> >>] >>
 MCCSlots2 == <<"h1", "h2">>
 MCLSlots2 == <<"l1", "l2">>
 MCCSlots1 == <<"h1">>
